@@ -253,6 +253,39 @@ func stressors(full bool) []VerifyCase {
 		b.WriteString(`if (v == "zz") { return 1; } return v;`)
 		add("many-constants", b.String(), "")
 	}
+	// the constant pool is shared by the program and all its functions, each
+	// of which may be (almost) 65535 bytes long: distinct constants spread over
+	// eight function bodies, so that the pool holds exactly 65536 + d constants
+	// (the overhead of names is measured on a small instance through the hook).
+	// Refused, or every reference still names its own constant: the script
+	// returns the last literal.
+	spread := func(n int) string {
+		var b strings.Builder
+		per := (n + 7) / 8
+		k := 0
+		for f := 0; f < 8; f++ {
+			fmt.Fprintf(&b, "function cf%d() {\n", f)
+			for i := 0; i < per && k < n; i++ {
+				fmt.Fprintf(&b, "v = \"s%d\";\n", k)
+				k++
+			}
+			b.WriteString("return 1;\n}\n")
+		}
+		b.WriteString("cf0(); cf1(); cf2(); cf3(); cf4(); cf5(); cf6(); cf7();\nreturn v;")
+		return b.String()
+	}
+	if r, err := prepared(spread(16), nil, true); err == nil {
+		consts, _, _ := r.E.VerifProgram()
+		overhead := len(consts) - 16
+		ds := []int{1}
+		if full {
+			ds = []int{-2, -1, 0, 1, 2, 3}
+		}
+		for _, d := range ds {
+			n := 65536 - overhead + d
+			add(fmt.Sprintf("constant-pool-of-65536%+d", d), spread(n), fmt.Sprintf("v = \"s%d\"; return v;", n-1))
+		}
+	}
 	// calls and arrays with many elements
 	elems := []int{255, 256, 257}
 	if full {
